@@ -82,6 +82,19 @@ pub fn gen(app: App, flavor: Flavor, over_tcp: bool, rng: &mut Rng) -> Vec<u8> {
         }
         (App::Ghost, _) => ghost::gen_request(rng),
         (App::Stun, Flavor::Valid) => stun::gen_binding_request(rng),
+        (App::Stun, Flavor::Fault) if rng.chance(1, 3) => {
+            // one of the cookie-less (end-anchored) forms followed by trailing bytes: it completes
+            // no signature as a datagram, and must not be served by the STUN responder
+            let fl = *rng.pick(&[0u8, 2, 4, 6]);
+            let mut m = if rng.chance(1, 2) {
+                stun::build(0x0001, &stun::gen_id(rng, false), &[(3, vec![0, 0, 0, fl])])
+            } else {
+                stun::build(0x0001, &stun::gen_id(rng, false), &[])
+            };
+            let extra = *rng.pick(&[1usize, 2, 4, 8, 20, 100]);
+            m.extend_from_slice(&rng.bytes(extra));
+            m
+        }
         (App::Stun, Flavor::Fault) | (App::Stun, Flavor::ResponseTyped) => stun::gen_non_request(rng),
         (App::Stun, Flavor::Hostile) => stun::gen_hostile(rng),
         (App::Dns, Flavor::Valid) => dns::gen_in_a_query(rng),
